@@ -269,6 +269,17 @@ def run(ctx: Ctx) -> int:
     ok = sorted(got) == ["key", "parent"]
     ctx.oblige("C16.e", ok, tests[0], "a source key is matched to the class group named by the key or by its immediate parent" if ok else f"a source key is matched against its {sorted(got)} instead of itself and its immediate parent: `outer.inner.attr` resolves to the group `outer` (the value of the wrong object is propagated) or to no group at all", fn=fg)
 
+    # a link is nested when all its sources live under the target's class argument - whose dest may itself be dotted
+    # (`grp.model`): the test is a prefix test with the separator, never a comparison of one key component
+    from .shared_rules import key_expr_role, key_helper_roles
+
+    inl = ctx.func("_link_arguments:is_nested_instantiation_link")
+    roles16 = key_helper_roles(ctx.repo)
+    comp_cmp = [n_ for n_ in ast.walk(inl) if isinstance(n_, ast.Compare) and (key_expr_role(roles16, n_.left) or any(key_expr_role(roles16, c_) for c_ in n_.comparators))]
+    sw_src = [c for c in calls_in(inl) if call_leaf(c) == "startswith" and isinstance(c.func.value, ast.Name)]
+    ok = not comp_cmp and len([c for c in calls_in(inl) if call_leaf(c) == "startswith"]) >= 2
+    ctx.oblige("C16.b", ok, comp_cmp[0] if comp_cmp else inl, "is_nested_instantiation_link compares keys with the class argument's dest by separator-terminated prefix" if ok else f"`{ast.unparse(comp_cmp[0])[:60] if comp_cmp else 'prefix tests'}` compares ONE component of a key with the dest: for a class argument with a dotted dest (`grp.model`) the link is no longer classified as nested, is never applied and the nested target is built with its default", fn=inl, construct="nested link by prefix")
+
     # ---------------- C16.f ---------------------------------------------------
     # links between init args of one nested class are re-declared on the per-class parser (get_class_parser),
     # whatever else that parser needs: without them the nested components are built in declaration order
